@@ -455,7 +455,7 @@ def build_C06_http(ctx, tier, rnd):
     # generated bodies: JSON trees (duplicates, missing / retyped / reordered / unknown fields, positional form, number
     # tokens around the usize range); what the library should read from each is computed by the MODEL (Json.resp_of_json)
     import jsongen
-    ntree = 120 if tier == 'quick' else 2500
+    ntree = 120 if tier == 'quick' else 800
     gen_ = [jsongen.gen_resp(rnd, 2, p2['hash'], url_of(2), None) for _ in range(ntree)]
     trees = [t for t, _ in gen_]
     fk = collections.Counter(f for _, fs in gen_ for f in fs)
@@ -484,6 +484,8 @@ def build_C06_http(ctx, tier, rnd):
     for pk in prekeys:
         pre = [al.init] + al.seq(PFX[pk])
         for lab, io, mo, refused in variants:
+            if lab.startswith(('hj_', 'ckhj_')) and pk not in ('empty', 'good1', 'good1boot2'):
+                continue          # generated bodies: three start states are enough (the reading does not depend on the state)
             tail = al.seq(['q', 'c']) + al.seq(['u2', 'q', 's', 'ok', 'q', 'R', 'q'])
             iops = pre + [io] + tail
             mops = pre + [mo] + tail
@@ -1711,9 +1713,19 @@ def run_C04(pid, tier, seed, model_ok=True):
     os.makedirs(work, exist_ok=True)
     try:
         al = gen.Alphabet(ctx)
-        header = ctx.header()
         targets = c04_targets(ctx, al, tier)
-        tail = ['op nextnum', 'op nextpath', 'op curnum', 'op kill', al.init, 'op nextnum', 'op nextpath', 'op curnum']
+        # with a signing key configured the artifact is READ when a selection is validated (signing::hash_file): a few
+        # targets under a key, so that failing / dying at that read is compared with the model's validateM step too
+        alk = gen.Alphabet(ctx, key=KEY1)
+        kstates = ['pend1', 'good1pend2'] if tier == 'quick' else ['pend1', 'boot1', 'good1pend2', 'good1boot2']
+        for stt in kstates:
+            prek = [alk.init] + alk.seq(PFX[stt])
+            for t in ('q', 's', 'rb2', 'u3'):
+                targets.append(('K_%s_%s' % (stt, t), prek, alk.ops[t], alk.init.split()[1:], 'same'))
+            targets.append(('K_%s_R' % stt, prek + ['op kill'], [alk.init], alk.init.split()[1:], 'same'))
+        header = ctx.header()
+        tail0 = ['op nextnum', 'op nextpath', 'op curnum', 'op kill', al.init, 'op nextnum', 'op nextpath', 'op curnum']
+        tail = tail0
         fails, divs, extras, samples = [], [], [], []
         evals = 0
         distinct = set()
@@ -1724,6 +1736,7 @@ def run_C04(pid, tier, seed, model_ok=True):
 
         def one(t):
             name, pre, tops, init_toks, kind = t
+            tail = [('op ' + ' '.join(init_toks)) if (x == al.init and kind == 'same') else x for x in tail0]   # restart with the target's own configuration
             res = dict(name=name, crash=[], fail=[], problems=[], model_crash=set(), model_rec={}, model_fail=set(), ops=None)
             d = os.path.join(work, name)
             os.makedirs(d, exist_ok=True)
